@@ -72,6 +72,28 @@ def map_leaves(S, f):
     raise ValueError(t)
 
 
+def replace_leaves(S, new_leaves):
+    """New structure whose leaves, in JAX flatten order, are new_leaves [(shape, dtype), ...]."""
+    it = iter(new_leaves)
+
+    def rec(S):
+        t = S['t']
+        if t == 'leaf':
+            sh, dt = next(it)
+            return leaf(sh, dt)
+        if t == 'stokes':
+            got = [next(it) for _ in S['kind']]
+            return stokes(S['kind'], got[0][0], got[0][1])
+        if t in ('tuple', 'list'):
+            return {'t': t, 'items': [rec(x) for x in S['items']]}
+        if t == 'dict':
+            done = {k: rec(v) for k, v in sorted(S['items'], key=lambda kv: kv[0])}
+            return {'t': 'dict', 'items': [[k, done[k]] for k, _ in S['items']]}
+        raise ValueError(t)
+
+    return rec(S)
+
+
 def equal(S1, S2) -> bool:
     """Structural equality as JAX sees it (dict order irrelevant)."""
     if S1['t'] != S2['t']:
